@@ -221,8 +221,10 @@ def _one_d_case(i, rng, tier):
             if idx + 1 < len(ge):
                 lo_e, hi_e = ge[idx], ge[idx + 1]
                 fin_e = [abs(t) for t in ge if not math.isinf(t)] or [1.0]
-                tol_e = 16 * np.finfo(float).eps * max(fin_e)
-                inside = (lo_e <= x < hi_e) or abs(x - lo_e) <= tol_e or abs(x - hi_e) <= tol_e
+                # equal-width binnings report edges through another expression (linspace) than fill uses: a few ulps of
+                # slack.  Centre- and threshold-based binnings report the very numbers fill compares with: exact.
+                tol_e = 16 * np.finfo(float).eps * max(fin_e) if k in ("Bin", "SparselyBin") else 0.0
+                inside = (lo_e <= x < hi_e) or (tol_e > 0 and (abs(x - lo_e) <= tol_e or abs(x - hi_e) <= tol_e))
                 counters["containment_checks"] = counters.get("containment_checks", 0) + 1
                 if not inside:
                     bad("fill put %r into bin %d, whose reported edges are [%r, %r)" % (x, idx, lo_e, hi_e), probe=S.jsonable(x))
